@@ -277,3 +277,21 @@ Fixpoint scan (v : tree) (s : sstate) (tr : trace) : list sstate :=
        | [] => []
        | e :: r => match snap_step v s e with Some s' => scan v s' r | None => [] end
        end.
+
+(** ** What the state directory sees (inotify vocabulary)
+
+    The file-system projection of the repaired snapshot steps: the temporary
+    file is created, written and closed; the state file is only ever the
+    target of a rename.  [FsLive]/[FsTemp]: the state file / any other name. *)
+Inductive fsk := FsCreate | FsDelete | FsModify | FsMovedFrom | FsMovedTo | FsCloseWrite | FsAttrib | FsOther.
+Inductive fsname := FsLive | FsTemp.
+
+Definition fs_of_sev (x : sev) : list (fsk * fsname) :=
+  match x with
+  | VCreate _ => [(FsCreate, FsTemp)]
+  | VWrite _ => [(FsModify, FsTemp); (FsCloseWrite, FsTemp)]
+  | VRename _ => [(FsMovedFrom, FsTemp); (FsMovedTo, FsLive)]
+  | _ => []
+  end.
+
+Definition fs_of_trace (tr : trace) : list (fsk * fsname) := flat_map (fun e => fs_of_sev (read e)) tr.
